@@ -49,6 +49,8 @@ theorem cutLoop_whole (s T : Bytes) (hT : (T.size : Int) < 2147483648) :
   | succ fuel ih =>
     intro c prev p out fuelS pE enc e d hc hb hp hcm hcd hspec h
     obtain ⟨fS, p1, out1, rfl, hav, hbody, hfin⟩ := blocks_step s _ p out pE T hspec
+    have hcd0 : c.decodedLen + ((0 : Nat) : Int) = (out.size : Int) := by rw [hcd]; simp
+    have hc0 : 0 ≤ c.decodedLen := by rw [hcd]; omega
     have hT1 : ∃ y, T = out1 ++ y := by
       rcases hfin with ⟨_, _, h3⟩ | ⟨_, h3⟩
       · exact ⟨#[], by rw [h3]; simp⟩
@@ -92,7 +94,7 @@ theorem cutLoop_whole (s T : Bytes) (hT : (T.size : Int) < 2147483648) :
     generalize hblk : (if bt = 0 then Cutter.doStored { c with bits := bits2 }
         else if bt = 1 then Cutter.doStaticHuffman { c with bits := bits2 } prev.isNone
         else Cutter.doDynamicHuffman { c with bits := bits2 } prev.isNone) = blk at h
-    have hboth : BlockSim s { c with bits := bits2 } p out p1 out1 blk ∧ Walked blk := by
+    have hboth : BlockSim s 0 { c with bits := bits2 } p out p1 out1 blk ∧ Walked blk := by
       rw [← hblk]
       have : bitsLE s (p + 1) 2 = 0 ∨ bitsLE s (p + 1) 2 = 1 ∨ bitsLE s (p + 1) 2 = 2 := by
         have : (2 : Nat) ^ 2 = 4 := by decide
@@ -101,20 +103,20 @@ theorem cutLoop_whole (s T : Bytes) (hT : (T.size : Int) < 2147483648) :
       · have : bt = 0 := by rw [t2, hty]; rfl
         rw [this]
         simp only [if_true]
-        exact ⟨stored_blocksim s _ hc2 hy p q2 out p1 out1 hty hbody hcd hT1sz,
+        exact ⟨stored_blocksim s _ hc2 hy p q2 out p1 out1 hty hbody 0 hcd0 hc0 hT1sz,
           stored_full s _ hc2 hy p q2 out p1 out1 hty hbody hcd hT1sz hfit⟩
       · have : bt = 1 := by rw [t2, hty]; rfl
         rw [this]
         have e10 : ¬ ((1 : Int) = 0) := by omega
         simp only [e10, if_false, if_true]
-        exact ⟨fixed_blocksim s _ hc2 hy p q2 out p1 out1 hty hbody hcd hT1sz _,
+        exact ⟨fixed_blocksim s _ hc2 hy p q2 out p1 out1 hty hbody 0 hcd0 hc0 hT1sz _,
           fixed_full s _ hc2 hy p q2 out p1 out1 hty hbody hcd hT1sz hfit _⟩
       · have : bt = 2 := by rw [t2, hty]; rfl
         rw [this]
         have e20 : ¬ ((2 : Int) = 0) := by omega
         have e21 : ¬ ((2 : Int) = 1) := by omega
         simp only [e20, e21, if_false]
-        exact ⟨dynamic_blocksim s _ hc2 hy p q2 out p1 out1 hty hbody hcd hT1sz _,
+        exact ⟨dynamic_blocksim s _ hc2 hy p q2 out p1 out1 hty hbody 0 hcd0 hc0 hT1sz _,
           dynamic_full s _ hc2 hy p q2 out p1 out1 hty hbody hcd hT1sz hfit _⟩
     obtain ⟨hsim, hwalk⟩ := hboth
     obtain ⟨c3, err⟩ := blk
@@ -129,7 +131,9 @@ theorem cutLoop_whole (s T : Bytes) (hT : (T.size : Int) < 2147483648) :
       obtain ⟨a1, a2, a3, a4, a5⟩ := k3 rfl
       have a1 : c3.bits.bytes = s := a1
       have a2 : c3.bits.pos = p1 := a2
-      have a3 : c3.decodedLen = (out1.size : Int) := a3
+      have a3 : c3.decodedLen = (out1.size : Int) := by
+        have h' : c3.decodedLen + ((0 : Nat) : Int) = (out1.size : Int) := a3
+        omega
       have a5 : c3.OK := a5
       obtain ⟨iu3, pu3⟩ := Inv.unread a5.inv
       rcases hfin with ⟨hf1, hf2, hf3⟩ | ⟨hf0, hcont⟩
